@@ -89,11 +89,13 @@ pub const HARNESSES: &[(&str, fn())] = &[
     ("c07_join_handle_wakes", c07_done::c07_join_handle_wakes),
     ("c07_two_woken_tasks", c07_done::c07_two_woken_tasks),
     ("c07_spawn_abort_join", c07_done::c07_spawn_abort_join),
+    ("c07_stale_registration", c07_done::c07_stale_registration),
     ("c01_settle_quiescent_a", c01_quiescence::c01_settle_quiescent_a),
     ("c01_settle_quiescent_b", c01_quiescence::c01_settle_quiescent_b),
     ("c01_settle_quiescent_c", c01_quiescence::c01_settle_quiescent_c),
     ("c01_stream_handover", c01_quiescence::c01_stream_handover),
     ("c01_run_all_quiescent", c01_quiescence::c01_run_all_quiescent),
+    ("c01_run_all_resumed_spawns", c01_quiescence::c01_run_all_resumed_spawns),
     ("c05_hosting_a", c05_hosting::c05_hosting_a),
     ("c05_hosting_b", c05_hosting::c05_hosting_b),
     ("c05_hosting_deep_a", c05_hosting::c05_hosting_deep_a),
